@@ -1,11 +1,12 @@
 //! Skeleton builders and generic property bodies shared by the harness families.
 //! Shape concrete per harness, contents symbolic (DESIGN lesson 1).
+use crate::catalogue::*;
 use crate::model::*;
 use crate::rec::*;
 use crate::vsrc::*;
 use deserr::{deserialize, Deserr};
 
-pub const STD_TAB: [&str; NSTR] = ["a", "bb", "ccc", "dddd", "ee\u{e9}", "Zz"];
+pub const STD_TAB: [&str; 2] = ["a", "bb"];
 
 // ------------------------------------------------------------------ skeletons
 // node 0 is always the root.
@@ -13,14 +14,14 @@ pub const STD_TAB: [&str; NSTR] = ["a", "bb", "ccc", "dddd", "ee\u{e9}", "Zz"];
 /// root = one symbolic leaf
 #[cfg(kani)]
 pub fn sk_leaf() {
-    set_tab(STD_TAB);
+    set_tab(&STD_TAB);
     set_node(0, any_leaf(2));
 }
 
 /// root = sequence of `n` symbolic leaves (nodes 1..=n)
 #[cfg(kani)]
 pub fn sk_seq(n: usize) {
-    set_tab(STD_TAB);
+    set_tab(&STD_TAB);
     let kids: [u8; 4] = [1, 2, 3, 4];
     set_node(0, seq_node(&kids[..n]));
     let mut i = 0;
@@ -33,7 +34,7 @@ pub fn sk_seq(n: usize) {
 /// root = sequence of two sequences of `m` leaves each
 #[cfg(kani)]
 pub fn sk_seq_seq(n: usize, m: usize) {
-    set_tab(STD_TAB);
+    set_tab(&STD_TAB);
     let kids: [u8; 4] = [1, 2, 3, 4];
     set_node(0, seq_node(&kids[..n]));
     let mut next = 1 + n;
@@ -55,7 +56,7 @@ pub fn sk_seq_seq(n: usize, m: usize) {
 /// root = sequence [leaf, sequence of m leaves]: a container next to a scalar
 #[cfg(kani)]
 pub fn sk_seq_mixed(m: usize) {
-    set_tab(STD_TAB);
+    set_tab(&STD_TAB);
     set_node(0, seq_node(&[1, 2]));
     set_node(1, any_leaf(2));
     let ks: [u8; 4] = [3, 4, 5, 6];
@@ -70,7 +71,7 @@ pub fn sk_seq_mixed(m: usize) {
 /// root = map of `n` members with symbolic keys (ids < nkeys) and symbolic leaf values
 #[cfg(kani)]
 pub fn sk_map(n: usize, nkeys: u8, distinct: bool) {
-    set_tab(STD_TAB);
+    set_tab(&STD_TAB);
     let kids: [u8; 4] = [1, 2, 3, 4];
     let keys: [u8; 4] = [any_keyid(nkeys), any_keyid(nkeys), any_keyid(nkeys), any_keyid(nkeys)];
     if distinct {
@@ -205,4 +206,159 @@ pub fn p_c03<T: Deserr<Rec<{ M_LOG | M_C03 }>>>(multi: bool) {
     }
     kani::cover!(!broke, "never stopped");
     core::mem::forget(r2);
+}
+
+// ------------------------------------------------------------------ catalogue
+
+/// root = object of `n` members, keys symbolic over the first `nkeys` table entries
+/// (pairwise distinct), values symbolic leaves; user-function outcomes symbolic.
+#[cfg(kani)]
+pub fn sk_obj(tab: &[&'static str], n: usize, nkeys: u8) {
+    set_tab(tab);
+    any_outcomes();
+    let kids: [u8; 4] = [1, 2, 3, 4];
+    let keys: [u8; 4] = [any_keyid(nkeys), any_keyid(nkeys), any_keyid(nkeys), any_keyid(nkeys)];
+    let mut i = 0;
+    while i < n {
+        let mut j = i + 1;
+        while j < n {
+            kani::assume(keys[i] != keys[j]);
+            j += 1;
+        }
+        i += 1;
+    }
+    set_node(0, map_node(&kids[..n], &keys[..n]));
+    let mut i = 0;
+    while i < n {
+        set_node(1 + i, any_leaf(tab.len() as u8));
+        i += 1;
+    }
+}
+
+/// root = one symbolic leaf whose string ranges over the whole table
+#[cfg(kani)]
+pub fn sk_leaf_tab(tab: &[&'static str]) {
+    set_tab(tab);
+    any_outcomes();
+    set_node(0, any_leaf(tab.len() as u8));
+}
+
+/// C02 / C07 / C08 / C09 / C10 / C11 for catalogue types: keep-going run against the
+/// reference model (reports attributed per property), value checks, call logs.
+#[cfg(kani)]
+pub fn p_cat<T: Deserr<Rec<M_LOG>> + Cat>(ok_reachable: bool, two: bool) {
+    reset();
+    all_continue();
+    let r = deserialize::<T, SV, Rec<M_LOG>>(SV(0));
+    let mut exp = Exp::new();
+    T::expect(0, &LOC0, &mut exp);
+    post_tagged(&exp);
+    match &r {
+        Ok(v) => {
+            assert!(exp.n == 0, "C02: Ok although the payload contains a fault");
+            v.check_value(0);
+        }
+        Err(_) => assert!(exp.n > 0, "C02: Err although the payload contains no fault"),
+    }
+    T::check_calls(0, r.is_ok());
+    if ok_reachable {
+        kani::cover!(r.is_ok(), "Ok reached");
+    }
+    kani::cover!(r.is_err(), "Err reached");
+    if two {
+        kani::cover!(nrep() >= 2, "two reports reached");
+    }
+    core::mem::forget(r);
+}
+
+// ------------------------------------------------------------------ C15
+
+/// Permute the members of the root object by a symbolic permutation.
+#[cfg(kani)]
+pub fn permute_root(n: usize) {
+    let root = node(0);
+    let p: u8 = kani::any();
+    let perm: [usize; 3] = if n == 2 {
+        kani::assume(p < 2);
+        if p == 0 { [0, 1, 2] } else { [1, 0, 2] }
+    } else {
+        kani::assume(p < 6);
+        match p {
+            0 => [0, 1, 2],
+            1 => [0, 2, 1],
+            2 => [1, 0, 2],
+            3 => [1, 2, 0],
+            4 => [2, 0, 1],
+            _ => [2, 1, 0],
+        }
+    };
+    let mut m = root;
+    let mut i = 0;
+    while i < n {
+        m.kids[i] = root.kids[perm[i]];
+        m.keys[i] = root.keys[perm[i]];
+        i += 1;
+    }
+    set_node(0, m);
+    kani::cover!(p > 0, "a non-identity permutation");
+}
+
+/// C15: two keep-going runs, the second over the permuted object: same value, same
+/// multiset of reports.
+#[cfg(kani)]
+pub fn p_c15<T: Deserr<Rec<M_LOG>> + PartialEq>(n: usize) {
+    reset();
+    all_continue();
+    let r1 = deserialize::<T, SV, Rec<M_LOG>>(SV(0));
+    let n1 = nrep();
+    let mut log1 = [REP0; MAXREP];
+    let mut i = 0;
+    while i < n1 {
+        log1[i] = rep(i);
+        i += 1;
+    }
+    permute_root(n);
+    reset();
+    all_continue();
+    let r2 = deserialize::<T, SV, Rec<M_LOG>>(SV(0));
+    match (&r1, &r2) {
+        (Ok(a), Ok(b)) => assert!(a == b, "C15: the value depends on the order of the object's members"),
+        (Err(_), Err(_)) => {
+            assert!(n1 == nrep(), "C15: the number of reports depends on the order of the object's members");
+            let mut i = 0;
+            while i < n1 {
+                let mut c1 = 0;
+                let mut j = 0;
+                while j < n1 {
+                    if rep_matches(&log1[j], &log1[i]) {
+                        c1 += 1;
+                    }
+                    j += 1;
+                }
+                assert!(count_in_log(&log1[i]) == c1, "C15: the set of reports depends on the order of the object's members");
+                i += 1;
+            }
+        }
+        _ => assert!(false, "C15: success depends on the order of the object's members"),
+    }
+    kani::cover!(r1.is_ok(), "Ok reached");
+    kani::cover!(r1.is_err() && n1 >= 2, "two reports reached");
+    core::mem::forget(r1);
+    core::mem::forget(r2);
+}
+
+/// like `sk_obj` but duplicate keys are allowed (C12)
+#[cfg(kani)]
+pub fn sk_obj_dup(tab: &[&'static str], n: usize, nkeys: u8) {
+    set_tab(tab);
+    any_outcomes();
+    let kids: [u8; 4] = [1, 2, 3, 4];
+    let keys: [u8; 4] = [any_keyid(nkeys), any_keyid(nkeys), any_keyid(nkeys), any_keyid(nkeys)];
+    set_node(0, map_node(&kids[..n], &keys[..n]));
+    let mut i = 0;
+    while i < n {
+        set_node(1 + i, any_leaf(tab.len() as u8));
+        i += 1;
+    }
+    kani::cover!(n >= 2 && keys[0] == keys[1], "duplicate key");
 }
